@@ -192,21 +192,30 @@ def ref_pdhg(E, y, lam, Gm, iters=20000):
     return x
 
 
-def recon_checks(ctx):
+ALL_PARTS = ("A", "B", "3d", "C", "D", "E", "F")
+
+
+def recon_job(job):
+    seed, tier, trial, part = job
+    return recon_checks(core.Ctx("C16", tier, seed), trials=[trial], parts=(part,))
+
+
+def recon_checks(ctx, trials=None, parts=ALL_PARTS):
+    """One (trial, part) pair per worker process: the set-up of a trial is cheap and regenerated from its own seed."""
     sp = _sp()
     out = []
     n_eval = 0
-    rs = ctx.nprng("sense_recon")
     shape = (4, 4)
     nc = 3
     F = centred_dft(shape)
-    for trial in range(3 if not ctx.thorough else 8):
+    for trial in (trials if trials is not None else range(3 if not ctx.thorough else 8)):
+        rs = ctx.nprng("sense_recon/%d" % trial)
         mps = rs.randn(nc, *shape) + 1j * rs.randn(nc, *shape)
         xt = rs.randn(*shape) + 1j * rs.randn(*shape)
         E = np.vstack([F @ np.diag(mps[k].ravel()) for k in range(nc)])
         y = (E @ xt.ravel()).reshape((nc,) + shape)
         # SenseRecon: ridge closed form, every applicable solver, lamda in {0, > 0}, batching
-        for lam in (0.0, 0.05):
+        for lam in ((0.0, 0.05) if "A" in parts else ()):
             xs = np.linalg.solve(E.conj().T @ E + lam * np.eye(16), E.conj().T @ y.ravel())
             fs = 0.5 * np.linalg.norm(E @ xs - y.ravel()) ** 2 + lam / 2 * np.linalg.norm(xs) ** 2
             for solver, kw in ((None, dict(max_iter=60)), ("GradientMethod", dict(max_iter=3000)), ("PrimalDualHybridGradient", dict(max_iter=4000)), ("ADMM", dict(max_iter=200, max_cg_iter=10))):
@@ -229,7 +238,7 @@ def recon_checks(ctx):
         wts = rs.choice([0.25, 1.0, 4.0], size=shape)
         Ew = np.vstack([np.diag(np.sqrt(wts).ravel()) @ F @ np.diag(mps[k].ravel()) for k in range(nc)])
         yw = (np.vstack([F @ np.diag(mps[k].ravel()) for k in range(nc)]) @ xt.ravel()).reshape((nc,) + shape)
-        for lam in (0.0, 0.05):
+        for lam in ((0.0, 0.05) if "B" in parts else ()):
             yy = (np.sqrt(wts)[None] * yw).ravel()
             xs = np.linalg.solve(Ew.conj().T @ Ew + lam * np.eye(16), Ew.conj().T @ yy)
             fs = 0.5 * np.linalg.norm(Ew @ xs - yy) ** 2 + lam / 2 * np.linalg.norm(xs) ** 2
@@ -241,7 +250,7 @@ def recon_checks(ctx):
                 f = 0.5 * np.linalg.norm(Ew @ x.ravel() - yy) ** 2 + lam / 2 * np.linalg.norm(x) ** 2
                 if f - fs > 2e-3 * max(1.0, fs):
                     out.append((["C16"], "senserecon_weighted", "SenseRecon(weights, lamda=%s, batch=%s): weighted objective %.6g vs optimum %.6g" % (lam, bsz, f, fs)))
-        if trial == 0:
+        if trial == 0 and "3d" in parts:
             sh3 = (2, 3, 2)
             F3 = centred_dft(sh3)
             m3 = rs.randn(nc, *sh3) + 1j * rs.randn(nc, *sh3)
@@ -257,6 +266,31 @@ def recon_checks(ctx):
                 out.append((["C16"], "not_reproduced", "3-D SenseRecon does not reproduce the image (rel err %.3g)" % (np.linalg.norm(xr - x3) / np.linalg.norm(x3))))
             if np.linalg.norm(xtv - x3) > 5e-3 * np.linalg.norm(x3):
                 out.append((["C16"], "not_reproduced", "3-D TotalVariationRecon(lamda=0) does not reproduce the image (rel err %.3g)" % (np.linalg.norm(xtv - x3) / np.linalg.norm(x3))))
+            # 3-D zero-filled undersampling whose pattern changes along every k-space axis, weights None: the sampling mask the
+            # apps estimate from the data must be the true 3-D pattern (a determined system then reproduces the image)
+            sh3u = (4, 3, 2)
+            F3u = centred_dft(sh3u)
+            m3u = rs.randn(nc, *sh3u) + 1j * rs.randn(nc, *sh3u)
+            x3u = rs.randn(*sh3u) + 1j * rs.randn(*sh3u)
+            mask3 = np.ones(sh3u)
+            mask3[1::2] = 0
+            mask3[0, 1, 0] = 0
+            mask3[1, 0, 1] = 1
+            E3u = np.vstack([np.diag(mask3.ravel()) @ F3u @ np.diag(m3u[k].ravel()) for k in range(nc)])
+            if np.linalg.matrix_rank(E3u) == x3u.size:
+                y3u = (E3u @ x3u.ravel()).reshape((nc,) + sh3u)
+                for name, mk in (("SenseRecon", lambda: sp.mri.app.SenseRecon(y3u.copy(), m3u, lamda=0, show_pbar=False, max_iter=300)),
+                                 ("L1WaveletRecon", lambda: sp.mri.app.L1WaveletRecon(y3u.copy(), m3u, 0.0, wave_name="haar", show_pbar=False, max_iter=6000)),
+                                 ("TotalVariationRecon", lambda: sp.mri.app.TotalVariationRecon(y3u.copy(), m3u, 0.0, show_pbar=False, max_iter=8000))):
+                    n_eval += 1
+                    with warnings.catch_warnings():
+                        warnings.simplefilter("ignore")
+                        xu = mk().run()
+                    # compare through the documented objective with the TRUE mask (robust against slow convergence of an ill-conditioned system)
+                    fu = 0.5 * np.linalg.norm(E3u @ xu.ravel() - y3u.ravel()) ** 2
+                    if fu > 1e-4 * 0.5 * np.linalg.norm(y3u) ** 2:
+                        out.append((["C16"], "not_reproduced", "3-D zero-filled undersampled %s (weights=None): residual of the explicit masked encoding %.3g of the data energy (rel err of x %.3g)"
+                                    % (name, fu / (0.5 * np.linalg.norm(y3u) ** 2), np.linalg.norm(xu - x3u) / np.linalg.norm(x3u))))
             # documented objective with the FULL finite-difference gradient (all image axes), lamda > 0
             G3, _ = linop_build.dense(sp.linop.FiniteDifference(list(sh3)), check_i=False)
             lam3 = 0.3
@@ -275,7 +309,7 @@ def recon_checks(ctx):
         Wm, _ = linop_build.dense(Wop, check_i=False)
         for name, Km, mk in (("TotalVariationRecon", Gm, lambda lam: sp.mri.app.TotalVariationRecon(y.copy(), mps, lam, show_pbar=False, max_iter=5000)),
                              ("L1WaveletRecon", Wm, lambda lam: sp.mri.app.L1WaveletRecon(y.copy(), mps, lam, wave_name="haar", show_pbar=False, max_iter=3000))):
-            for lam in (0.0, 0.1):
+            for lam in ((0.0, 0.1) if "C" in parts else ()):
                 n_eval += 1
                 np.random.seed(trial)
                 with warnings.catch_warnings():
@@ -297,7 +331,7 @@ def recon_checks(ctx):
         yyw = (np.sqrt(wts)[None] * yw).ravel()
         for name, Km, mk in (("TotalVariationRecon", Gm, lambda lam: sp.mri.app.TotalVariationRecon(yw.copy(), mps, lam, weights=wts, show_pbar=False, max_iter=5000)),
                              ("L1WaveletRecon", Wm, lambda lam: sp.mri.app.L1WaveletRecon(yw.copy(), mps, lam, weights=wts, wave_name="haar", show_pbar=False, max_iter=3000))):
-            for lam in (0.0, 0.1):
+            for lam in ((0.0, 0.1) if "D" in parts else ()):
                 n_eval += 1
                 np.random.seed(trial)
                 with warnings.catch_warnings():
@@ -318,7 +352,7 @@ def recon_checks(ctx):
         # non-Cartesian data (coord given), with and without density-compensation weights, every recon app and solver.
         # The encoding matrix is the library's own dense Sense operator WITHOUT weights (its agreement with the exact NDFT
         # encoding is the operator check above); the documented objective adds the square-root weights by hand.
-        if trial < (2 if not ctx.thorough else 4):
+        if trial < (2 if not ctx.thorough else 4) and "E" in parts:
             npts = 28
             coord = rs.uniform(-2, 2, (npts, 2))
             En, _ = linop_build.dense(sp.mri.linop.Sense(mps, coord=coord), check_i=False)
@@ -359,7 +393,7 @@ def recon_checks(ctx):
                     if objn(x) - objn(xr) > 2e-3 * max(1.0, objn(xr)):
                         out.append((["C16", "C14"], "recon_objective", "non-Cartesian %s(lamda=%s, weights=%s): objective %.6g, independent reference %.6g" % (name, lam, wv is not None, objn(x), objn(xr))))
         # the regularised recons through every solver LinearLeastSquares offers for them (Cartesian, lamda > 0)
-        if trial == 0:
+        if trial == 0 and "F" in parts:
             lam = 0.1
             for name, Km, solvers, mk in (
                     ("TotalVariationRecon", Gm, ("PrimalDualHybridGradient", "ADMM"), lambda so, kw: sp.mri.app.TotalVariationRecon(y.copy(), mps, lam, solver=so, show_pbar=False, **kw)),
@@ -414,7 +448,12 @@ def run(ctx):
     r.evaluations += nf
     r.nontrivial += nf
     r.notes.append("%d ConvSense / ConvImage / PtxSpatialExplicit operators probed (adjoint, involution, normal)" % nf)
-    rout, ne = recon_checks(ctx)
+    rjobs = [(ctx.seed, ctx.tier, trial, part) for trial in range(3 if not ctx.thorough else 8) for part in ALL_PARTS
+            if not (part in ("3d", "F") and trial != 0) and not (part == "E" and trial >= (2 if not ctx.thorough else 4))]
+    with mp.get_context("fork").Pool(16) as pool:
+        parts_out = pool.map(recon_job, rjobs, chunksize=1)
+    rout = [o for po, _ in parts_out for o in po]
+    ne = sum(n_ for _, n_ in parts_out)
     for props, kind, detail in rout:
         r.violations.append(core.Violation(props, "sense", {"kind": kind}, detail, {}))
     r.traces += ne
